@@ -140,7 +140,7 @@ func checkC09(r *core.Run) {
 	var wg sync.WaitGroup
 	sem := make(chan struct{}, core.Workers())
 	// runJob runs one child; factor stretches its deadline (a child that missed its deadline is run a second time,
-	// with a five times longer one, before the miss is believed: a loaded machine must not look like a deadlock)
+	// with a three times longer one, before the miss is believed: a loaded machine must not look like a deadlock)
 	var runJob func(i int, j job, factor int)
 	runJob = func(i int, j job, factor int) {
 		{
@@ -221,7 +221,7 @@ func checkC09(r *core.Run) {
 			wg.Add(1)
 			go func(i int, j job) {
 				defer wg.Done()
-				runJob(i, j, 5)
+				runJob(i, j, 3)
 			}(i, j)
 		}
 	}
